@@ -400,11 +400,13 @@ IsInput(e, n) ==     \* is register n read by the call?  (the receiver of a sett
                                  "Scalar.Bytes", "Scalar.Equal", "Elem.Bytes", "Elem.Equal", "Elem.IsNegative", "Elem.Swap"})
 CallKey(e) == <<e.op, e.n, [i \in 1..Len(Positions(e)) |->
                    LET n == Positions(e)[i] IN IF n = "" \/ ~IsInput(e, n) THEN <<>> ELSE AbsObj(n, e.pre[n])]>>
-\* only library calls that completed normally are memoised; keys are per program
+\* library calls are memoised, keys are per program; of a call that panicked only the fact is kept (whether a call panics
+\* must depend on its arguments alone, like its result)
 Memoisable(e) == e.op \notin {"Buf.Set", "Buf.Scribble", "Elem.Inject", "Shim.Radix16", "Shim.NAF", "Shim.ProjTable", "Shim.ProjSelect",
-                              "Shim.BaseTable", "Shim.BaseNafTable"} /\ e.panic = 0
+                              "Shim.BaseTable", "Shim.BaseNafTable"}
 \* the result is compared up to the names of the written registers
-ResShape(e) == <<e.err, e.panic, e.out,
+ResShape(e) == IF e.panic = 1 THEN <<0, 1, 0, <<>>, <<>> >> ELSE
+               <<e.err, e.panic, e.out,
                  \* (a failed setter leaves the receiver as it was: its contents are then not a result of the call)
                  IF e.recv = "" \/ e.err = 1 THEN <<>> ELSE AbsObj(e.recv, e.post[e.recv]),
                  \* (ExtendedCoordinates returns a representation: its abstract result is the point it stands for)
